@@ -2,8 +2,11 @@
    PARTIAL: proved for the assignment channel (variables, elements, fields and dereferenced pointers all
    reach the same store sequence): an attempt on a constant cell is an error and the state is unchanged.
    The other writers (FOR header, INPUT, READFILE, GETRECORD, BYREF formals) test the same flag in Eval.v
-   and are compared with the implementation for every literal type and writer form. *)
-From PE2 Require Import Eval Lemmas_Store.
+   and are compared with the implementation for every literal type and writer form.
+   Over the whole evaluator: the CONSTANT flag of a cell is permanent (no execution clears it, the cell never
+   disappears, its identifier is never given to another object), so every site that tests the flag keeps
+   rejecting the constant for the rest of the run.  Not proved: that every write site tests it (DESIGN.md). *)
+From PE2 Require Import Eval Lemmas_Store Lemmas_Out.
 
 Theorem C08_assignment_to_constant_no_effect : forall t c id v s cl,
   get_cell id s = (Ok cl, s) -> well_tagged v -> c_const cl = true ->
@@ -20,3 +23,13 @@ Proof.
   unfold get_cell in H1. cbn in H1. rewrite nm_get_put_same in H1. inversion H1; subst. reflexivity.
 Qed.
 Print Assumptions C08_flag_lives_in_the_cell.
+
+Theorem C08_constant_flag_is_permanent : forall ped repl lim fuel bl c s id cl,
+  (forall j x, nm_get j (s_cells s) = Some x -> (j < s_next s)%N) -> nm_get id (s_cells s) = Some cl -> c_const cl = true ->
+  exists cl', nm_get id (s_cells (snd (run_block ped repl lim fuel bl c s))) = Some cl' /\ c_const cl' = true /\ c_type cl' = c_type cl.
+Proof.
+  intros ped repl lim fuel bl c s id cl Hb E K.
+  destruct (constant_flag_and_type_are_permanent ped repl lim fuel bl c s id cl Hb E) as [cl' [E' [H1 [H2 _]]]].
+  exists cl'. split; [exact E'|]. split; [congruence|exact H2].
+Qed.
+Print Assumptions C08_constant_flag_is_permanent.
